@@ -40,8 +40,10 @@ func (h *RefreshFunc) Final(ctx *sqlite.AggregateContext) {
 		ctx.ResultError(fmt.Errorf("table not found: %s", fCtx.tableName))
 		return
 	}
-	if vt.Tree.Root.IsDirty() {
+	if !vt.S3Options.ReadOnly && vt.Tree.Root.IsDirty() {
 		// replacing the tree would silently drop the open transaction's rows
+		// (a read-only table has none: it is only dirty while it holds the
+		// merge of several versions in memory)
 		ctx.ResultError(fmt.Errorf("cannot refresh %s: it has uncommitted changes", fCtx.tableName))
 		return
 	}
